@@ -264,6 +264,16 @@ macro_rules! runner {
                     let _ = pl.clone().actual_subscribe(p);
                   }))
                 }
+                5 => {
+                  // feedback loop: on the first item send one more item into hot subject 1
+                  let (mut subj, mut done) = (self.env.subjects[0].clone(), false);
+                  Some(Box::new(move |v: &Val| {
+                    if !done {
+                      done = true;
+                      subj.next(Val::I(w(v) + 10));
+                    }
+                  }))
+                }
                 4 => {
                   // peek() the BehaviorSubject this pipeline starts from, from inside the callback
                   let a = self.env.prog[root - 1].a;
